@@ -28,6 +28,7 @@ verus! {
 //@part value
 //@part ast
 //@part registry_types
+//@type NumberParts in core/src/output/number_parts.rs
 //@part pretty
 //@autoslots
 } // verus!
